@@ -41,6 +41,7 @@ func main() {
 	case "ord":
 		vh.Main("print.ord", ordImpl{})
 	case "file":
+		extraCommentShapes = true
 		vh.Main("print.file", &fileImpl{})
 	default:
 		vh.Main("print.reparse", &reparseImpl{})
